@@ -117,7 +117,7 @@ pub fn oracles_for(property: &str, recs: &[RunRecord]) -> Vec<Violation> {
     for (i, rec) in recs.iter().enumerate() {
         let (inv, ex, run, world) = (&rec.inv, &rec.expected, &rec.run, &rec.world);
         out.extend(oracle::liveness(property, run, i));
-        if run.status >= 90 {
+        if crate::oracle::sim_reserved(run.status) {
             continue;
         }
         let stdin_mode = ex.selection.stdin;
@@ -189,6 +189,15 @@ pub fn oracles_for(property: &str, recs: &[RunRecord]) -> Vec<Violation> {
             "C17" => {
                 let kf8 = model::stdin_skip_kf8(world, &inv.opts);
                 out.extend(oracle::stdin_oracle(property, inv, ex, run, i, kf8));
+                // check mode: stdout carries a diff record for "stdin" iff the input differs, and
+                // nothing else (in particular nothing on a parse error)
+                let stream_fault = run.trace.fired.iter().any(|f| f.kind == "EIO" || f.kind == "EPIPE");
+                if inv.opts.check && !stream_fault {
+                    out.extend(oracle::report_oracle(property, inv, world, ex, run, i).into_iter().map(|mut v| {
+                        v.class = format!("stdin/{}{}", v.class, if kf8 { "/respect-ignores-stdin-filepath-non-nearest-ignore-file" } else { "" });
+                        v
+                    }));
+                }
                 out.extend(oracle::no_write_oracle(property, run, i));
             }
             "C19" => {
@@ -243,7 +252,7 @@ pub fn check_case(property: &str, bin: &Path, scratch: &Scratch, case: &Case, rn
     if property == "C19" {
         // the same world and options under other schedules and thread counts
         let base = outcome_of(&records);
-        let base_live = records.iter().all(|r| r.run.status < 90);
+        let base_live = records.iter().all(|r| !crate::oracle::sim_reserved(r.run.status));
         for k in 0..k_schedules {
             let mut c2 = case.clone();
             for inv in c2.invs.iter_mut() {
@@ -256,7 +265,7 @@ pub fn check_case(property: &str, bin: &Path, scratch: &Scratch, case: &Case, rn
                 Err(e) => return CaseOutcome { violations, records, harness: Some(e) },
                 Ok(r2) => {
                     violations.extend(oracles_for(property, &r2).into_iter().map(|v| (v, vec![c2.clone()])));
-                    let live = r2.iter().all(|r| r.run.status < 90);
+                    let live = r2.iter().all(|r| !crate::oracle::sim_reserved(r.run.status));
                     if live && base_live {
                         let o2 = outcome_of(&r2);
                         if o2 != base {
